@@ -27,6 +27,9 @@ type c15bScenario struct {
 	World   *gen.SchedWorld `json:"world"`
 	Choices []int           `json:"choices"`
 	Edits   []string        `json:"edits"` // one edit kind per created NodeClaim (cycled)
+	// PreEdit: per pool (cycled) - the template was edited after the hash controller last stamped the pool, and the
+	// provisioning pass runs before the hash controller catches up
+	PreEdit []bool `json:"preEdit"`
 }
 
 var c15bEdits = []string{"excludeZone", "excludeType", "otherCT", "absentIn", "absentWellKnown", "absentExists", "absentGt", "absentLt", "keepZone", "absentNotIn", "absentDoesNotExist", "templateLabel", "templateTaint", "weightAndLimits", "none", "hashVersion"}
@@ -41,6 +44,7 @@ func drawC15b(t *rapid.T) *c15bScenario {
 	s.World.Options.ReservedCapacity = false
 	s.Choices = rapid.SliceOfN(rapid.IntRange(0, 11), 4, 4).Draw(t, "choices")
 	s.Edits = rapid.SliceOfN(rapid.SampledFrom(c15bEdits), 4, 4).Draw(t, "edits")
+	s.PreEdit = rapid.SliceOfN(rapid.Bool(), 3, 3).Draw(t, "preEdit")
 	return s
 }
 
@@ -89,12 +93,38 @@ func execC15b(s *c15bScenario, c *ev.Ctx) {
 		stamp(np)
 		w.Apply(np)
 	}
+	// a template edit lands between the hash controller's last reconcile and the provisioning pass
+	poolNames := make([]string, 0, len(b.Pools))
+	for n := range b.Pools {
+		poolNames = append(poolNames, n)
+	}
+	sort.Strings(poolNames)
+	for i, n := range poolNames {
+		if len(s.PreEdit) > 0 && s.PreEdit[i%len(s.PreEdit)] {
+			np := b.Pools[n]
+			if np.Spec.Template.Labels == nil {
+				np.Spec.Template.Labels = map[string]string{}
+			}
+			np.Spec.Template.Labels["ex.io/pre-edited"] = "yes"
+			w.Apply(np) // annotation still holds the old hash
+			c.Class("template_edited_before_hash_controller_ran")
+		}
+	}
+	w.Sync()
 	res, err := b.Provisioner.Schedule(w.Ctx)
 	if err != nil {
 		c.Class("schedule_error")
 		return
 	}
 	names, _ := b.Provisioner.CreateNodeClaims(w.Ctx, res.NewNodeClaims)
+	// the hash controller catches up
+	for _, n := range poolNames {
+		np := &v1.NodePool{}
+		w.Quiet(func() { _ = w.Client.Get(w.Ctx, clientKey(n), np) })
+		stamp(np)
+		w.Apply(np)
+		b.Pools[n] = np
+	}
 	lc := w.NewLifecycle(nil)
 	ncd := ncdisruption.NewController(w.Clock, w.Client, w.Provider)
 	drifted := func(name string) (bool, string) {
@@ -135,6 +165,13 @@ func execC15b(s *c15bScenario, c *ev.Ctx) {
 			}
 			c.Violate(sig, "NodeClaim %s of pool %s, freshly created and launched as %s/%s/%s, is reported Drifted (%s); %s; requirements %v; labels %v", name, pool.Name,
 				nc.Labels[corev1.LabelInstanceTypeStable], nc.Labels[corev1.LabelTopologyZone], nc.Labels[v1.CapacityTypeLabelKey], reason, why, pool.Spec.Template.Spec.Requirements, nc.Labels)
+			continue
+		}
+		// the scheduler's own product must satisfy the pool it was made from; when it does not, Karpenter read a
+		// requirement that needs the label present (e.g. NotIn[3 4] with Lt 6) as a plain NotIn - the presence-loss
+		// defect recorded under C12 - and every later drift verdict for this claim inherits it
+		if sat, why := labelsSatisfy(pool.Spec.Template.Spec.Requirements, nc.Labels); !sat {
+			c.Violate("fresh-claim-labels-outside-requirements:presence-lost", "NodeClaim %s of pool %s was created with labels that do not satisfy the pool's requirements (%s) and is not reported Drifted; labels %v", name, pool.Name, why, nc.Labels)
 			continue
 		}
 		// ---- an edit of the pool
@@ -228,7 +265,7 @@ func poolWithHash(np *v1.NodePool, stamp func(*v1.NodePool)) *v1.NodePool {
 
 var propC15b = ev.Prop[c15bScenario]{
 	ID: "C15", Test: "TestC15b",
-	Rule: "rapid draws a scheduler world (pools with many operators on well-known and user-defined keys, template labels, taints) and pending pods; the REAL Provisioner.Schedule + CreateNodeClaims run, every NodeClaim is launched by the REAL lifecycle controller as a generated permitted (type, offering); the REAL nodeclaim.disruption controller then decides Drifted; then one edit per NodeClaim is applied to its pool (NotIn the claim's zone / type, the other capacity type, In / Exists / Gt / Lt on a user-defined or well-known key the claim lacks, a requirement it still satisfies, NotIn / DoesNotExist on an absent key, template label / taint with the hash annotation refreshed, weight + limits + budgets, a template change under a newer hash version) and drift is decided again; " +
+	Rule: "rapid draws a scheduler world (pools with many operators on well-known and user-defined keys, template labels, taints) and pending pods; for some pools the template is edited after the (emulated) hash controller stamped them and before the pass, the hash controller catching up afterwards; the REAL Provisioner.Schedule + CreateNodeClaims run, every NodeClaim is launched by the REAL lifecycle controller as a generated permitted (type, offering); the REAL nodeclaim.disruption controller then decides Drifted; then one edit per NodeClaim is applied to its pool (NotIn the claim's zone / type, the other capacity type, In / Exists / Gt / Lt on a user-defined or well-known key the claim lacks, a requirement it still satisfies, NotIn / DoesNotExist on an absent key, template label / taint with the hash annotation refreshed, weight + limits + budgets, a template change under a newer hash version) and drift is decided again; " +
 		"oracle: a fresh NodeClaim is never Drifted; after the edit it is Drifted iff an independent set-semantics evaluation says its labels no longer satisfy the pool's requirements (a required label being absent counts) or the template hash changed under the same hash version; " +
 		"non-trivial = at least one edit was judged on a launched NodeClaim",
 	Assumptions: []string{"the NodePool hash controller is emulated by stamping NodePool.Hash() and the hash version on the pool", "instance-type-not-found drift (only evaluated for claims older than 1 h) and provider drift are out of scope"},
